@@ -48,6 +48,8 @@ let () =
           show_bytes id (encrypt_temp sha1 aes_enc (fun _ -> pad) payload (of_be (bytes_of_hex a1)) (of_be (bytes_of_hex a2))) r2
       | "dec" ->
         show_bytes id (decrypt_temp sha1 aes_dec (bytes_of_hex a3) (of_be (bytes_of_hex a1)) (of_be (bytes_of_hex a2))) "-"
+      | "trydec" ->
+        show_bytes id (trydec_temp sha1 aes_dec (bytes_of_hex a3) (of_be (bytes_of_hex a1)) (of_be (bytes_of_hex a2))) "-"
       | "aesige" ->
         show_pair id (generate_aes_ige sha1 (bytes_of_hex a1) (bytes_of_hex a2) (a3 = "1"))
       | "msgenc" ->
